@@ -116,7 +116,7 @@ def check_case(fn, recipe, script, delivery="probing", rec=None, strict=False):
             S, wrap, out = real_stream(fn, f, glb, recipe, script, delivery)
     except PR.Timeout:
         HY.force_global_clean()
-        raise PropertyViolation("hang", f"probed run did not finish within 3 s\n{src}")
+        raise PropertyViolation("hang", f"probed run did not finish within 3 s of CPU time\n{src}")
     except BaseException as e:
         if isinstance(e, (KeyboardInterrupt, SystemExit)):
             raise
